@@ -1,10 +1,11 @@
 SPECIFICATION Spec
 CONSTANTS
-  Programs <- AllPrograms
+  Programs <- FamilyDeep
   QuerySeqs <- QS3
   Permute = TRUE
   CheckOnTableHit = TRUE
   RepairFalseResult = TRUE
+  LinkStopsAtNegation = FALSE
 VIEW view
 INVARIANT NoDanglingMessages
 INVARIANT NoError
